@@ -555,6 +555,11 @@ def malformed_table(nd, dims, rng):
         ("scale", {"factor": 2, "reference_point": [1.0] * (nd - 1) + ["a"]}),
         ("scale", {"factor": 1j}),
         ("scale", {"factor": -0.0}),
+        # numeric arrays of the wrong rank (a column vector, a matrix)
+        ("scale", {"factor": np.full((nd, 1), 2.0)}),
+        ("scale", {"factor": np.full((nd, nd), 2)}),
+        ("translate", {"vector": np.ones((nd, 1))}),
+        ("scale", {"factor": 2, "reference_point": np.zeros((nd, 1))}),
     ]
     if nd > 1:
         a, b = dims[0], dims[1]
